@@ -30,6 +30,9 @@ CHECKS["C19"] = ("exception-escape analysis by abstract interpretation of the re
 CHECKS["C05"] = ("abstract interpretation of the position-grid kernels over an abstractly constructed object graph with symbolic n_t>=2, n_o>=4: exact polynomial values piecewise in the shell index compared with the property's formulas; layout (LAYOUT), symmetric emission (MIRROR), dimension (DEG) rules",
     "Every volume, radial/lateral border and radial/lateral distance of the default position grid is derived symbolically (exact polynomials in the radii and opaque unit-sphere quantities) and compared with the formulas of the property on the first, inner and last shell; shell-major layout, +-n_o diagonals, block placement and per-shell masks are decided by polynomial identities. Universal in n_t, n_o, radii. The unit-sphere quantities themselves belong to C03.", "6 C05")
 
+CHECKS["C09"] = ("abstract interpretation of the full-grid array builder, len and index helpers with symbolic sizes (row-index polynomial of every store, mixed-radix digits of the position index), order-kind/structural rule for the first-occurrence de-duplication, column-split agreement across writer and readers",
+    "Row layout n = pos*n_b + rot with pos = t*n_o + o, the stored position/quaternion values, len, n mod n_b and n div n_b are derived as exact polynomials for all sizes; decomposition order, column splits and the consumer's unpacking order are decided structurally. Rounding collisions at 8 decimals are not decided.", "6 C09")
+
 NOT_APPLICABLE = {
     "C06": "Cartesian Voronoi cell geometry is produced by qhull and floating-point predicates (polygon vertex ordering, F2); no static abstract domain in reach separates the failing coordinate configurations; the one structural clause is too thin to claim the property (DESIGN.md section 6, C06).",
     "C07": "distinctness/separation/hemisphere membership of computed coordinates are numerical facts; the row-count and unit-norm clauses are already run-time assertions, so a static restatement would only test the presence of those asserts (DESIGN.md section 6, C07).",
